@@ -98,7 +98,7 @@ def showAct {α} (A : Arith α) (a : Act α) : String :=
   match a.snap with
   | none => "log"
   | some sn =>
-    s!"{a.tag} {hexOf a.verb} {a.round} {A.raw sn.quota} {A.raw sn.votes} {A.raw sn.x1} {A.raw sn.x2} " ++
+    s!"{a.tag} {hexOf a.verb} {a.round} {if a.subj.isEmpty then "-" else ",".intercalate (a.subj.map toString)} {A.raw sn.quota} {A.raw sn.votes} {A.raw sn.x1} {A.raw sn.x2} " ++
     " ".intercalate (sn.cs.map (fun (cid, code, v, kf, q) =>
       s!"{cid}:{code}:{if code == "W" then "-" else A.raw v}{if code == "W" then "" else showOpt A kf}{if code == "W" then "" else showOpt A q}"))
     ++ " W " ++ " ".intercalate (a.ws.map (fun (i, w) => s!"{i}:{A.raw w}"))
@@ -130,7 +130,9 @@ def finish {α} (A : Arith α) (r : Option (St α)) : Out α :=
       let s' := s.logAct A "end" "Count Complete" []
       let nE := s'.elected.length
       if nE == s'.seats || (nE < s'.seats && nE == s'.eligible.length) then
-        .ok (s'.acts.reverse.filter (fun a => a.snap.isSome))
+        -- the Meek family keeps no per-ballot weights between distributions: no ballot view there
+        .ok ((s'.acts.reverse.filter (fun a => a.snap.isSome)).map
+              (fun a => if s'.method == .meek then { a with ws := [] } else a))
       else .crash "AssertionError"
 
 def showOut {α} (A : Arith α) : Out α → String
@@ -140,7 +142,8 @@ def showOut {α} (A : Arith α) : Out α → String
 
 def parseAct {α} (isQpq : Bool) (zero : α) (pv : String → Option α) (s : String) : Option (Act α) := do
   match (s.trimAscii.toString.splitOn " ").filter (· ≠ "") with
-  | tag :: verbHex :: round :: quota :: votes :: x1 :: x2 :: rest =>
+  | tag :: verbHex :: round :: subjS :: quota :: votes :: x1 :: x2 :: rest =>
+    let subj ← if subjS == "-" then some [] else (subjS.splitOn ",").mapM String.toNat?
     let cs := rest.takeWhile (· != "W")
     let wsT := (rest.dropWhile (· != "W")).drop 1
     let ws' ← wsT.mapM (fun (e : String) => do
@@ -157,7 +160,7 @@ def parseAct {α} (isQpq : Bool) (zero : α) (pv : String → Option α) (s : St
         | [v, k] => if isQpq then pure (cid, code, ← pv v, none, some (← pv k)) else pure (cid, code, ← pv v, some (← pv k), none)
         | _ => none
       | _ => none)
-    pure { tag, round := ← round.toNat?, verb := (unhex verbHex).getD "", subj := [],
+    pure { tag, round := ← round.toNat?, verb := (unhex verbHex).getD "", subj := subj,
            snap := some { cs := cs', votes := ← pv votes, quota := ← pv quota, x1 := ← pv x1, x2 := ← pv x2 }, ws := ws' }
   | _ => none
 
@@ -170,13 +173,35 @@ def parseOut {α} (isQpq : Bool) (zero : α) (pv : String → Option α) (s : St
 
 def b2s (b : Bool) : String := if b then "1" else "0"
 
-def oracles {α} (A : Arith α) (units : Int → α) (ctx : Ctx) (omega10 : Nat) (ballots : List (Nat × List Nat)) : Out α → String
+def ctx2Of (c : Case) : Ctx2 :=
+  { intq := c.intq, tie := c.cands.map (fun (cid, tie, _, _) => (cid, tie))
+    undeclared := (c.cands.filter (fun (_, _, _, ud) => ud)).map (·.1)
+    ballots := c.ballots, hasEq := !c.ballotsEq.isEmpty }
+
+def oracles {α} (A : Arith α) (units : Int → α) (c : Case) : Out α → String
   | .ok acts =>
-    let omega := A.divV A.one (A.ofInt (10 ^ omega10))
-    let c06 := ctx.method != .wigm || okC06 A ballots acts
-    s!"C01={b2s (okC01 ctx acts)} C09={b2s (okC09 ctx acts)} C02={b2s (ctx.method != .wigm || okC02Gregory A ctx units acts)} C18={b2s (okC18rec ctx acts)} EXC={b2s (okExclusions A ctx acts)} C08={b2s (ctx.method != .meek || okC08 A ctx omega acts)} C06={b2s c06}"
-  | .crash k => s!"C01=0 C09=? C02=? crash={k}"
-  | .fuel => "C01=0 fuel"
+    let ctx := ctxOf c
+    let c2 := ctx2Of c
+    let om := if c.rule == "meek-prf" then 6 else c.omega
+    let omega := A.divV A.one (A.ofInt (10 ^ om))
+    let greg := ctx.method == .wigm
+    let meek := ctx.method == .meek
+    let c05skip := c2.hasEq || (c.rule == "mpls" && !c2.undeclared.isEmpty)
+                   || ((c.arith == "integer" || c.p + c.g == 0) && c.seats > 1 && c.arith != "rational")
+    let allowance := units (2 * (c.nballots : Int) * (c.cands.length : Int))
+    let kv : List (String × Bool) :=
+      [("C01", okC01 ctx acts), ("C09", okC09 ctx acts),
+       ("C02", if greg then okC02Gregory A ctx units acts else if meek then okC08cons A ctx acts else okC02Qpq A ctx c2 units acts),
+       ("C18", okC18rec ctx acts), ("EXC", okExclusions A ctx acts),
+       ("C04q", okC04quota A ctx c2 acts), ("C04c", okC04complete A ctx acts),
+       ("C05", c05skip || okC05 A ctx c2 allowance acts),
+       ("C06", !greg || okC06 A c.ballots acts), ("C06r", !greg || okC06rew A ctx c2 acts),
+       ("C07b", okC07batch A ctx acts), ("C07l", okC07largest A ctx acts), ("C07t", okC07ties A ctx c2 acts),
+       ("C08c", !meek || okC08cons A ctx acts), ("C08t", !meek || okC08timing A ctx omega acts),
+       ("C08k", !meek || okC08kf A ctx acts)]
+    " ".intercalate (kv.map (fun (k, v) => s!"{k}={b2s v}"))
+  | .crash k => s!"CRASH={k}"
+  | .fuel => "FUEL=1"
 
 def evalWith {α} (A : Arith α) (units : Int → α) (pv : String → Option α) (c : Case) (impl : Option String) : String :=
   let m := finish A (runRuleSt A c)
@@ -186,8 +211,7 @@ def evalWith {α} (A : Arith α) (units : Int → α) (pv : String → Option α
     match parseOut (c.rule == "qpq") A.zero pv line with
     | none => "BAD-IMPL-LINE"
     | some o =>
-      let om := if c.rule == "meek-prf" then 6 else c.omega
-      s!"MODEL {oracles A units (ctxOf c) om c.ballots m} ;; IMPL {oracles A units (ctxOf c) om c.ballots o} ;; SAME={b2s (showOut A m == showOut A o)}"
+      s!"MODEL {oracles A units c m} ;; IMPL {oracles A units c o} ;; SAME={b2s (showOut A m == showOut A o)}"
 
 def parseRat (s : String) : Option Rat :=
   match s.splitOn "/" with
